@@ -287,9 +287,9 @@ func equalLines(a, b []string) bool {
 // ---------- the differential run ----------
 
 type runner struct {
-	comp   Component
-	drv    *Driver
-	sum    *Summary
+	comp    Component
+	drv     *Driver
+	sum     *Summary
 	seen    map[string]bool
 	maxMis  int
 	wantKey string
